@@ -5,9 +5,10 @@
      data/value_array.go     ArrayValue.List []*ZVal (spine of cell pointers), NewArrayValue,
                              CloneArrayValue (new spine, SAME cells), FindSlotByIntKey, storeSlot,
                              SetIntKey, SetStrKey, normalizeDenseIntKeys, UnsetKey
-     data/value_object.go    ObjectValue (string-keyed literal arrays / class instances),
-                             CloneObjectValue (new cells, same values), SetProperty (clones an
-                             array-valued property on store), data/ordered_map.go Set/Delete
+     data/value_object.go    ObjectValue (string-keyed literal arrays), CloneObjectValue (new
+                             cells, same values), SetProperty (clones an array-valued entry on
+                             store), data/ordered_map.go Set/Delete
+     data/value_class.go     ClassValue.SetProperty (class instances: the same clone-on-store)
      runtime/context.go      SetVariableValue (array -> CloneArrayValue, ObjectValue -> CloneObjectValue,
                              ReferenceValue / ArraySlotRef -> share the ZVal)
      node/index.go           IndexExpression.SetValue (int / string / append branches, nested
@@ -490,6 +491,13 @@ Inductive tree := TNull | TInt (z : Z) | TArr (l : list (tkey * tree)) | TObjRef
 Definition key_of (j : nat) (n : name) : tkey :=
   match n with NNone => TKI (Z.of_nat j) | NInt i => TKI i | NStr s => TKS s end.
 
+(* the entries of one array: rec observes an element value *)
+Fixpoint obs_items (rec : val -> tree) (h : heap) (l : list nat) (j : nat) : list (tkey * tree) :=
+  match l with
+  | [] => []
+  | c :: r => (key_of j (cname (cell_at h c)), rec (cval (cell_at h c))) :: obs_items rec h r (S j)
+  end.
+
 Fixpoint obs (fuel : nat) (h : heap) (v : val) : tree :=
   match v with
   | VNull => TNull
@@ -498,12 +506,7 @@ Fixpoint obs (fuel : nat) (h : heap) (v : val) : tree :=
   | VArr a =>
       match fuel with
       | O => TArr []
-      | S f =>
-          TArr ((fix go (l : list nat) (j : nat) : list (tkey * tree) :=
-                   match l with
-                   | [] => []
-                   | c :: r => (key_of j (cname (cell_at h c)), obs f h (cval (cell_at h c))) :: go r (S j)
-                   end) (spine h a) 0%nat)
+      | S f => TArr (obs_items (obs f h) h (spine h a) 0%nat)
       end
   | VMap o =>
       match fuel with
